@@ -135,8 +135,12 @@ Definition gone : gexpr := GNum 1 1.
 Definition gint (z : Z) : gexpr := GNum z 1.
 
 (* _is_sympde_atom *)
-Definition is_atom (e : gexpr) : bool :=
-  match e with GSF _ | GVF _ | G1 OMinus _ | G1 OPlus _ => true | _ => false end.
+Fixpoint is_atom (e : gexpr) : bool :=
+  match e with
+  | GSF _ | GVF _ => true
+  | G1 OMinus x | G1 OPlus x => is_atom x      (* a restriction is an atom only if what it restricts is one *)
+  | _ => false
+  end.
 (* expr.space exists (read by the space-kind check of every DiffOperator.eval on a sympde atom; minus(x).space
    is x.space): AttributeError otherwise *)
 Fixpoint has_space (e : gexpr) : bool :=
@@ -298,6 +302,11 @@ Section Model.
   Notation comm := (is_comm d).
 
   (* ============================================================ Dot Cross Inner Outer Convect *)
+  (* the factors pulled out of the second argument: the commutative ones; for Convect (whose second argument is
+     differentiated) only the commutative NUMBERS *)
+  Definition pulled2 (o : op2) (i : gexpr) : bool :=
+    match o with OConvect => comm i && is_number i | _ => comm i end.
+
   Definition bil_zero (o : op2) (a1 a2 : gexpr) : bool :=
     match o with
     | OConvect => is_zero a1 || is_number a2
@@ -330,8 +339,8 @@ Section Model.
             let fb := match a2 with GMul l => l | _ => [a2] end in
             let args1 := filter (fun i => negb (comm i)) fa in
             let c1 := filter comm fa in
-            let args2 := filter (fun i => negb (comm i)) fb in
-            let c2 := filter comm fb in
+            let args2 := filter (fun i => negb (pulled2 o i)) fb in
+            let c2 := filter (pulled2 o) fb in
             match args1, args2 with
             | [], _ | _, [] => Raise                       (* reduce(mul, []) : TypeError *)
             | _, _ =>
@@ -389,6 +398,12 @@ Section Model.
             | [], [], [] => Ok gzero
             end
         | GPow b x =>
+            if negb (is_number x) then
+              (* general power rule: e*b**(e-1)*Grad(b) + b**e*log(b)*Grad(e) *)
+              let! db := mk_grad k b in
+              let! dx := mk_grad k x in
+              Ok (gadd [gmul [x; gpow b (gsub1 x); db]; gmul [GPow b x; GFn Flog b; dx]])
+            else
             let! a := mk_grad k b in
             let ex := gpow b (gsub1 x) in
             match a with
@@ -443,27 +458,26 @@ Section Model.
             let a := gmul coeffs in
             match vectors with
             | [x; y] =>
-                (* a, b = vectors : the coefficient is overwritten *)
                 let rule (f F : gexpr) : res :=
-                  (* f times Div(F) + Dot(F, grad(f)) ; any exception: cls(product of vectors, evaluate=False) *)
+                  (* a*(f times Div(F) + Dot(F, grad(f))) ; any exception: a*cls(product of vectors, evaluate=False) *)
                   match mk_div k F with
                   | Ok dF =>
                       match mk_grad k f with
                       | Ok gf =>
                           match mk_bil k ODot F gf with
-                          | Ok dt => Ok (gadd [gmul [f; dF]; dt])
-                          | Raise => Ok (G1 ODiv (gmul_raw vectors))
+                          | Ok dt => Ok (gmul [a; gadd [gmul [f; dF]; dt]])
+                          | Raise => Ok (gmul [a; G1 ODiv (gmul_raw vectors)])
                           | NoFuel => NoFuel
                           end
-                      | Raise => Ok (G1 ODiv (gmul_raw vectors))
+                      | Raise => Ok (gmul [a; G1 ODiv (gmul_raw vectors)])
                       | NoFuel => NoFuel
                       end
-                  | Raise => Ok (G1 ODiv (gmul_raw vectors))
+                  | Raise => Ok (gmul [a; G1 ODiv (gmul_raw vectors)])
                   | NoFuel => NoFuel
                   end in
                 if is_vecfun x then rule y x
                 else if is_vecfun y then rule x y
-                else Ok (gmul [x; G1 ODiv (gmul_raw vectors)])
+                else Ok (gmul [a; G1 ODiv (gmul_raw vectors)])
             | [] => Ok a
             | _ => Ok (gmul [a; G1 ODiv (gmul_raw vectors)])
             end
@@ -497,6 +511,7 @@ Section Model.
             let a := gmul coeffs in
             match vectors with
             | [f; g] =>
+                if negb (comm f && comm g) then Ok (gmul [a; G1 OLaplace (gmul_raw vectors)]) else
                 let! lg := mk_laplace k g in
                 let! lf := mk_laplace k f in
                 let! gf := mk_grad k f in
@@ -646,7 +661,8 @@ Section Model.
                 end
             | OLaplace =>
                 match filter (fun a => negb (is_number a)) l with
-                | [_; _] => "mul-two" | _ => "mul-coeff"
+                | [f; g] => if comm f && comm g then "mul-two" else "mul-coeff"
+                | _ => "mul-coeff"
                 end
             | _ => "mul-coeff"
             end
@@ -680,10 +696,10 @@ Section Model.
                | _ =>
                    let fa := match a1 with GMul l => l | _ => [a1] end in
                    let fb := match a2 with GMul l => l | _ => [a2] end in
-                   match filter (fun i => negb (comm i)) fa, filter (fun i => negb (comm i)) fb with
+                   match filter (fun i => negb (comm i)) fa, filter (fun i => negb (pulled2 o i)) fb with
                    | [], _ | _, [] => "raise"
                    | x, y =>
-                       let pulled := match (filter comm fa ++ filter comm fb)%list with [] => "" | _ => "-factors" end in
+                       let pulled := match (filter comm fa ++ filter (pulled2 o) fb)%list with [] => "" | _ => "-factors" end in
                        match o with
                        | ODot | OInner | OCross => if sgt (gmul x) (gmul y) then "swap" ++ pulled else "keep" ++ pulled
                        | _ => "keep" ++ pulled
@@ -936,18 +952,12 @@ Fixpoint cs_ok (d : nat) (e : gexpr) : bool :=
   end.
 Definition cs_top (d : nat) (e : gexpr) : bool := cs_ok d e && (negb (is_comm d e) || is_scalar d e).
 
-(* guards of the bilinear constructors: the commutative factors they pull out of a product are scalars
-   (resp., for the second argument of Convect, numbers); sums are distributed first *)
+(* guard of the bilinear constructors: the commutative factors they pull out of a product are scalars;
+   sums are distributed first *)
 Fixpoint pull_ok (d : nat) (a : gexpr) : bool :=
   match a with
   | GAdd l => forallb (pull_ok d) l
   | GMul l => forallb (fun x => negb (is_comm d x) || is_scalar d x) l
-  | _ => true
-  end.
-Fixpoint conv_ok (d : nat) (a : gexpr) : bool :=
-  match a with
-  | GAdd l => forallb (conv_ok d) l
-  | GMul l => forallb (fun x => negb (is_comm d x) || is_number x) l
   | _ => true
   end.
 (* Inner: every summand keeps the kind (matrix / vector) [m] of the whole argument *)
@@ -970,7 +980,8 @@ Definition exp_canon (x : gexpr) : bool :=
   | _ => true
   end.
 
-(* the exponent of every power to which the recursion of Grad.eval applies its power rule is a number *)
+(* the exponents of the powers to which the recursion of Grad.eval applies its power rule are sympy-canonical
+   (a side condition on the INPUT FORMAT, not on the rule: sympy's Add guarantees it) *)
 Fixpoint grad_guard (d : nat) (e : gexpr) : bool :=
   if negb (has_types e) then true else
   match e with
@@ -978,16 +989,15 @@ Fixpoint grad_guard (d : nat) (e : gexpr) : bool :=
   | GMul l =>
       if existsb (fun a => negb (is_comm d a)) l then true
       else forallb (fun x => negb (negb (is_number x) && has_types x) || grad_guard d x) l
-  | GPow b x => is_number x && exp_canon x && grad_guard d b
+  | GPow b x => exp_canon x && grad_guard d b && (is_number x || grad_guard d x)
   | _ => true
   end.
 
 (* a scalar factor to which the recursion applies Grad.eval *)
 Definition f_ok (d : nat) (f : gexpr) : bool := is_scalar d f && cs_ok d f && grad_guard d f.
 
-(* Div.eval is sound where: a product of exactly two non-numeric factors has no numeric coefficient and
-   one factor is a VectorFunction (the other a scalar admissible for Grad.eval); div(cross) in 3D;
-   div(curl) outside 2D *)
+(* Div.eval: in f*F (F a VectorFunction) the other factor is a scalar admissible for Grad.eval;
+   div(cross) is used in 3D and div(curl) outside 2D (typing) *)
 Fixpoint div_guard (d : nat) (e : gexpr) : bool :=
   if negb (has_types e) then true else
   match e with
@@ -995,10 +1005,7 @@ Fixpoint div_guard (d : nat) (e : gexpr) : bool :=
   | GMul l =>
       match filter (fun a => negb (is_number a)) l with
       | [x; y] =>
-          match filter is_number l with
-          | [] => (is_vecfun x && f_ok d y) || (negb (is_vecfun x) && is_vecfun y && f_ok d x)
-          | _ => false
-          end
+          if is_vecfun x then f_ok d y else if is_vecfun y then f_ok d x else true
       | _ => true
       end
   | G2 OCross a b => Nat.eqb d 3 && cs_ok d a && cs_ok d b
@@ -1013,7 +1020,8 @@ Fixpoint laplace_guard (d : nat) (e : gexpr) : bool :=
   | GAdd l => forallb (fun x => negb (has_types x) || laplace_guard d x) l
   | GMul l =>
       match filter (fun a => negb (is_number a)) l with
-      | [f; g] => f_ok d f && f_ok d g && forallb (fun x => is_number x || laplace_guard d x) l
+      | [f; g] => negb (is_comm d f && is_comm d g) ||
+                  (f_ok d f && f_ok d g && forallb (fun x => is_number x || laplace_guard d x) l)
       | _ => true
       end
   | _ => true
